@@ -160,6 +160,11 @@ pub struct StreamPlan {
     /// start only once one application has let go of stream `after_abort` (no quiescence barrier)
     #[serde(default)]
     pub after_abort: Option<usize>,
+    /// start only once the application at the *opener's* endpoint has dropped its object of stream
+    /// `after_let_go` and its connection task has had time to process that (no Reset is waited
+    /// for: the stream may have been finished properly)
+    #[serde(default)]
+    pub after_let_go: Option<usize>,
     /// arbitrary host bytes instead of the tagged host (C07); such streams are matched to
     /// accepted streams by (host, port) equality
     #[serde(default)]
@@ -274,6 +279,11 @@ pub struct Plan {
     /// something periodic (keepalive) keeps the clock busy for ever
     #[serde(default)]
     pub horizon_ms: u64,
+    /// the two connection tasks stay subject to tokio's cooperative budget (see
+    /// `Sim::spawn_constrained`): operations on tokio's channels and timers inside them may
+    /// return a spurious `Pending` when a lot has happened since the runtime was last returned to
+    #[serde(default)]
+    pub coop: bool,
 }
 impl Plan {
     pub fn base() -> Plan {
@@ -293,6 +303,7 @@ impl Plan {
             late_ops: false,
             extra_acceptors: [0, 0],
             horizon_ms: 0,
+            coop: false,
         }
     }
 }
@@ -859,6 +870,7 @@ pub struct DuoRun {
     pub sim_ms: u64,
     pub probe_from: usize,
     pub trace: Option<Vec<String>>,
+    pub budget_exhausted: u64,
 }
 
 fn src_mode(x: u8) -> SrcMode {
@@ -917,7 +929,7 @@ async fn run_async(plan: Plan, sched: Sched, record: bool) -> DuoRun {
         let (m, t) = Multiplexor::new_detailed::<_, SimInstant>(SimWs { link: link.clone(), me }, cfg.options(), rng);
         let m = Rc::new(m);
         let (led2, seq2, weak, cancel, late, tcancel) = (led.clone(), seq.clone(), Rc::downgrade(&m), cancels[me].clone(), plan.late_ops, task_cancels[me].clone());
-        sim.spawn(&format!("conn{me}"), if me == 0 { CLS_CONN0 } else { CLS_CONN1 }, async move {
+        let conn_task = async move {
             // `None`: the task future was dropped before it finished (aborted)
             let r = tcancel.run(t.into_task()).await;
             let now = seq2.tick();
@@ -960,7 +972,13 @@ async fn run_async(plan: Plan, sched: Sched, record: bool) -> DuoRun {
                     }
                 }
             }
-        });
+        };
+        let (name, cls) = (format!("conn{me}"), if me == 0 { CLS_CONN0 } else { CLS_CONN1 });
+        if plan.coop {
+            sim.spawn_constrained(&name, cls, conn_task);
+        } else {
+            sim.spawn(&name, cls, conn_task);
+        }
         muxes.borrow_mut()[me] = Some(m);
     }
     let sp = sim.spawner();
@@ -1042,6 +1060,7 @@ async fn run_async(plan: Plan, sched: Sched, record: bool) -> DuoRun {
         let (led2, seq2, sp2, st2, cancel) = (led.clone(), seq.clone(), sp.clone(), st.clone(), cancels[me].clone());
         let link2 = link.clone();
         let nstreams = plan.streams.len();
+        let openers: Vec<usize> = plan.streams.iter().map(|x| x.opener.min(1)).collect();
         sim.spawn(&format!("open{tag}"), CLS_OTHER, async move {
             if let Some(a) = st2.after {
                 if a < nstreams && a != tag {
@@ -1059,6 +1078,26 @@ async fn run_async(plan: Plan, sched: Sched, record: bool) -> DuoRun {
                             break;
                         }
                     }
+                }
+            }
+            if let Some(a) = st2.after_let_go {
+                if a < nstreams && a != tag {
+                    let opener_of_a = openers[a];
+                    let mut guard = 0;
+                    loop {
+                        let gone = {
+                            let l = led2.borrow();
+                            let s = &l.streams[a];
+                            let side = if opener_of_a == me { 0 } else { 1 };
+                            matches!(s.open_ret, Some((_, Err(_)))) || s.sides[side].dropped.is_some()
+                        };
+                        guard += 1;
+                        if gone || cancel.is_cancelled() || guard > 20_000 {
+                            break;
+                        }
+                        tokio::time::sleep(Duration::from_millis(1)).await;
+                    }
+                    tokio::time::sleep(Duration::from_millis(50)).await;
                 }
             }
             if let Some(a) = st2.after_abort {
@@ -1355,7 +1394,7 @@ async fn run_async(plan: Plan, sched: Sched, record: bool) -> DuoRun {
     drop(keep);
     let fired = world.borrow().fired_at.clone();
     let t0 = link.lock().unwrap().t0;
-    DuoRun { plan, led, link, end, steps: sim.steps, digest: sim.digest.0 ^ seq.now(), decisions: sim.decisions.take().unwrap_or_default(), unfinished: sim.unfinished(), fired, sim_ms: sim.t_last.duration_since(t0).as_millis() as u64, probe_from, trace: sim.trace.take() }
+    DuoRun { plan, led, link, end, steps: sim.steps, digest: sim.digest.0 ^ seq.now(), decisions: sim.decisions.take().unwrap_or_default(), unfinished: sim.unfinished(), fired, sim_ms: sim.t_last.duration_since(t0).as_millis() as u64, probe_from, trace: sim.trace.take(), budget_exhausted: sim.budget_exhausted }
 }
 
 pub fn outcome_base(r: &DuoRun) -> Outcome {
@@ -1366,6 +1405,12 @@ pub fn outcome_base(r: &DuoRun) -> Outcome {
     }
     for (k, v) in &r.led.borrow().probes {
         o.probe(k, *v);
+    }
+    if r.plan.coop {
+        o.probe("fault:coop-constrained-run", 1);
+        if r.budget_exhausted > 0 {
+            o.probe("fault:coop-budget-exhausted", 1);
+        }
     }
     if r.end != End::Quiescent {
         o.violate("HARNESS:step-budget", format!("run did not reach quiescence within the step budget ({} steps)", r.steps));
